@@ -164,6 +164,30 @@ func c01Run(e *core.Env) {
 			}
 		}
 	}
+	// high-precision block
+	for iu := range sp.HiUs {
+		if !e.Mine(int64(iu)) {
+			continue
+		}
+		e.State()
+		for _, cc := range sp.HiCtxs {
+			for _, op := range c01Unary {
+				do(op, sp.HiUs[iu], nil, cc, "")
+			}
+		}
+	}
+	for ip := range sp.HiPairs {
+		if !e.Mine(int64(ip)) {
+			continue
+		}
+		e.State()
+		pr := sp.HiPairs[ip]
+		for _, cc := range sp.HiCtxs {
+			for _, op := range c01Binary {
+				do(op, pr[0], &pr[1], cc, "")
+			}
+		}
+	}
 	// precision 0: exact results, package exponent range
 	p0 := []CtxCase{MkCtx(0, -100000, 100000, apd.RoundHalfUp, 0), MkCtx(0, -100000, 100000, apd.RoundFloor, 0), MkCtx(0, -100000, 100000, "", 0)}
 	p0x := append(append([]Operand{}, sp.Us...), limitOperands()...)
